@@ -3,4 +3,4 @@ import Driver.Fam.Export
 open Driver
 /-- families of area "export" -/
 def main (args : List String) : IO UInt32 :=
-  run [Fam.sqltext, Fam.sqlsafe, Fam.csvtext, Fam.csvsafe, Fam.exportmut, Fam.lexcross, Fam.csvcross, Fam.jsoncross] args
+  run [Fam.sqltext, Fam.sqlsafe, Fam.csvtext, Fam.csvsafe, Fam.sqlrows, Fam.exportmut, Fam.lexcross, Fam.csvcross, Fam.jsoncross] args
